@@ -359,3 +359,91 @@ def iter_funcs(prog: Program, modules: list[str] | None = None) -> Iterator[Func
             continue
         seen.add(id(fi))
         yield fi
+
+
+MUTATING_METHODS = {"append", "appendleft", "extend", "insert", "pop", "popleft", "remove", "clear", "update", "setdefault", "add", "discard",
+                    "popitem", "sort", "reverse"}
+
+
+def mutation_after_escape(fn: ast.FunctionDef, escapes) -> list[tuple[ast.AST, str, ast.AST]]:
+    """Flow-sensitive walk of one function: a local name handed to a call selected by `escapes(call)` (e.g. a PDU
+    constructor, which keeps the object by reference) is 'escaped' until the name is rebound; a mutation of an escaped
+    name (mutating method, subscript store/delete, augmented assignment) changes the object the receiver holds.
+    Loop bodies are walked twice (back edge). Returns (mutating node, name, the call it escaped into)."""
+    found: list[tuple[ast.AST, str, ast.AST]] = []
+    seen: set[int] = set()
+
+    def names_in_call(c: ast.Call) -> list[str]:
+        out = []
+        for a in list(c.args) + [k.value for k in c.keywords]:
+            if isinstance(a, ast.Name):
+                out.append(a.id)
+        return out
+
+    def scan_expr(e: ast.AST, esc: dict[str, ast.AST]) -> None:
+        for n in ast.walk(e):
+            if isinstance(n, ast.Call):
+                if isinstance(n.func, ast.Attribute) and isinstance(n.func.value, ast.Name) and n.func.value.id in esc and n.func.attr in MUTATING_METHODS:
+                    if id(n) not in seen:
+                        seen.add(id(n))
+                        found.append((n, n.func.value.id, esc[n.func.value.id]))
+        for n in ast.walk(e):
+            if isinstance(n, ast.Call) and escapes(n):
+                for nm in names_in_call(n):
+                    esc[nm] = n
+
+    def run(stmts: list[ast.stmt], esc: dict[str, ast.AST]) -> dict[str, ast.AST]:
+        for s in stmts:
+            if isinstance(s, (ast.Assign, ast.AnnAssign)):
+                if s.value is not None:
+                    scan_expr(s.value, esc)
+                tgts = s.targets if isinstance(s, ast.Assign) else [s.target]
+                for t in tgts:
+                    if isinstance(t, ast.Name):
+                        esc.pop(t.id, None)  # rebound: a new object
+                    elif isinstance(t, ast.Subscript) and isinstance(t.value, ast.Name) and t.value.id in esc and id(s) not in seen:
+                        seen.add(id(s))
+                        found.append((s, t.value.id, esc[t.value.id]))
+            elif isinstance(s, ast.AugAssign):
+                scan_expr(s.value, esc)
+                t = s.target
+                base = t.value if isinstance(t, ast.Subscript) else t
+                if isinstance(base, ast.Name) and base.id in esc and id(s) not in seen:
+                    seen.add(id(s))
+                    found.append((s, base.id, esc[base.id]))
+            elif isinstance(s, ast.Delete):
+                for t in s.targets:
+                    if isinstance(t, ast.Subscript) and isinstance(t.value, ast.Name) and t.value.id in esc and id(s) not in seen:
+                        seen.add(id(s))
+                        found.append((s, t.value.id, esc[t.value.id]))
+                    elif isinstance(t, ast.Name):
+                        esc.pop(t.id, None)
+            elif isinstance(s, ast.If):
+                scan_expr(s.test, esc)
+                a = run(s.body, dict(esc))
+                b = run(s.orelse, dict(esc))
+                esc = {**a, **b}
+            elif isinstance(s, (ast.For, ast.While)):
+                scan_expr(s.iter if isinstance(s, ast.For) else s.test, esc)
+                for _ in range(2):
+                    esc = {**esc, **run(s.body, dict(esc))}
+                esc = {**esc, **run(s.orelse, dict(esc))}
+            elif isinstance(s, ast.With):
+                for it in s.items:
+                    scan_expr(it.context_expr, esc)
+                esc = run(s.body, esc)
+            elif isinstance(s, ast.Try):
+                esc = run(s.body, esc)
+                for hnd in s.handlers:
+                    esc = {**esc, **run(hnd.body, dict(esc))}
+                esc = run(s.orelse, esc)
+                esc = run(s.finalbody, esc)
+            elif isinstance(s, (ast.FunctionDef, ast.AsyncFunctionDef, ast.ClassDef)):
+                continue
+            else:
+                for ch in ast.iter_child_nodes(s):
+                    scan_expr(ch, esc)
+        return esc
+
+    run(fn.body, {})
+    return found
